@@ -79,11 +79,13 @@ def generic_text(arg_widths, body_lines, yield_val, extra_attr=""):
 
 def rand_body(rng, shape=None):
     """random straight-line body over addi/muli/subi/extsi; shape: optional op-name sequence to follow (wiring random)."""
-    nargs = rng.choice([3, 3, 3, 5]) if shape is None else (5 if shape and shape.count("extsi") == 2 and shape.count("subi") == 2 else 3)
+    nargs = rng.choice([3, 3, 3, 5]) if shape is None else (5 if shape and shape.count("subi") == 2 else 3)
     outw = rng.choice([8, 16, 32, 64])
     widths = [rng.choice([w for w in (8, 16, 32, 64) if w <= outw]) for _ in range(nargs - 1)] + [outw]
     if rng.random() < 0.5:
         widths = [widths[0]] * (nargs - 1) + [outw]
+    if shape is not None and "extsi" not in shape:
+        widths = [outw] * nargs          # nothing widens: all operands already have the result width
     vals = [(f"%b{i}", w) for i, w in enumerate(widths)]
     lines = []
     ops = shape or [rng.choice(["addi", "muli", "subi", "extsi"]) for _ in range(rng.randint(1, 4))]
@@ -111,7 +113,67 @@ def rand_body(rng, shape=None):
     return widths, lines, outs[-1]
 
 
-KERNEL_SHAPES = [["muli"], ["addi"], ["muli", "addi"], ["extsi", "extsi", "muli", "addi"], ["extsi", "subi", "extsi", "subi", "muli", "addi"]]
+KERNEL_SHAPES = [["muli"], ["addi"], ["muli", "addi"], ["extsi", "extsi", "muli", "addi"], ["extsi", "subi", "extsi", "subi", "muli", "addi"],
+                 ["subi", "subi", "muli", "addi"]]
+
+
+def kernel_template(kind, wn, ww):
+    if kind == "mul":
+        return [ww, ww, ww], [("muli", "%b0", "%b1", ww)]
+    if kind == "add":
+        return [ww, ww, ww], [("addi", "%b0", "%b1", ww)]
+    if kind == "mac":
+        return [ww, ww, ww], [("muli", "%b0", "%b1", ww), ("addi", "%b2", "%v1", ww)]
+    if kind == "mac_ext":
+        return [wn, wn, ww], [("extsi", "%b0", None, ww), ("extsi", "%b1", None, ww), ("muli", "%v1", "%v2", ww), ("addi", "%b2", "%v3", ww)]
+    if kind == "qmac_ext":
+        return [wn, wn, ww, ww, ww], [("extsi", "%b0", None, ww), ("subi", "%v1", "%b2", ww), ("extsi", "%b1", None, ww), ("subi", "%v3", "%b3", ww),
+                                      ("muli", "%v2", "%v4", ww), ("addi", "%b4", "%v5", ww)]
+    return [ww] * 5, [("subi", "%b0", "%b2", ww), ("subi", "%b1", "%b3", ww), ("muli", "%v1", "%v2", ww), ("addi", "%b4", "%v3", ww)]
+
+
+def nearmiss_bodies(rng, n_double):
+    """the canonical wiring of every kernel (also with operands that already have the result width) with ONE operand slot re-pointed at
+    another value of the same width - all of them - and n_double random double re-pointings: bodies that contain the same kinds of
+    operations as a kernel but wire them differently"""
+    out = []
+
+    def render(widths, ops, wn):
+        lines = []
+        for j, (o, a, b, w) in enumerate(ops):
+            lines.append(f"%v{j + 1} = arith.extsi {a} : i{wn} to i{w}" if o == "extsi" else f"%v{j + 1} = arith.{o} {a}, {b} : i{w}")
+        return widths, lines, f"%v{len(ops)}"
+
+    def substitutions(widths, ops, wn):
+        for j, op in enumerate(ops):
+            for slot in ((1,) if op[0] == "extsi" else (1, 2)):
+                srcw = wn if op[0] == "extsi" else op[3]
+                for cnd in [f"%b{i}" for i, w in enumerate(widths) if w == srcw] + [f"%v{q + 1}" for q in range(j) if ops[q][3] == srcw]:
+                    if cnd != op[slot]:
+                        yield j, slot, cnd
+    combos = [(8, 32), (8, 16), (16, 64), (32, 64)]
+    for q, kind in enumerate(["mul", "add", "mac", "mac_ext", "qmac_ext", "qmac_same"]):
+        wn, ww = combos[q % len(combos)]
+        if kind in ("mul", "add", "mac", "qmac_same"):
+            wn = ww
+        widths, tmpl = kernel_template(kind, wn, ww)
+        for (j, slot, cnd) in substitutions(widths, tmpl, wn):
+            ops = [list(t) for t in tmpl]
+            ops[j][slot] = cnd
+            out.append(render(widths, ops, wn))
+    for _ in range(n_double):
+        kind = rng.choice(["mac", "mac_ext", "qmac_ext", "qmac_same"])
+        wn, ww = rng.choice(combos)
+        if kind in ("mac", "qmac_same"):
+            wn = ww
+        widths, tmpl = kernel_template(kind, wn, ww)
+        ops = [list(t) for t in tmpl]
+        for _k in range(2):
+            subs = list(substitutions(widths, ops, wn))
+            j, slot, cnd = rng.choice(subs)
+            ops[j][slot] = cnd
+        out.append(render(widths, ops, wn))
+    return out
 
 
 def canonical_bodies():
@@ -172,6 +234,8 @@ def run(pid: str, tier: str, seed: int, selftest=False, replay=None) -> int:
         b = rand_body(rng, rng.choice(KERNEL_SHAPES) if rng.random() < 0.6 else None)
         if b is not None:
             bodies.append((f"gen:{seed}:{k}", b))
+    for k, b in enumerate(nearmiss_bodies(rng, 60 if quick else 3000)):
+        bodies.append((f"nearmiss:{seed}:{k}", b))
     # exhaustive small scope: every wiring of <= 2 (thorough: 3, sampled) mul/add/sub operations over three arguments of one width
     rg, flats = tlc_bodies(pid, 3, 3, 2 if quick else 3)
     rep.add_tlc(rg)
